@@ -816,7 +816,6 @@ func c02ObserverScope(c *Ctx, r *Result) {
 	r.Floor("R02a-scope", n, 2)
 }
 
-
 // c02ReturnsZeroTest: fn has a bool result and every value it returns there is the comparison
 // `unfinished == 0` whose load follows the decrement.
 func c02ReturnsZeroTest(fn *ssa.Function, f *types.Var) (bool, string) {
